@@ -1,15 +1,11 @@
 package c12
 
 import (
-	"context"
 	"fmt"
 	"math/rand"
 	"net/http"
 	"sync"
 
-	"github.com/emersion/go-ical"
-	"github.com/emersion/go-vcard"
-	"github.com/emersion/go-webdav"
 	"github.com/emersion/go-webdav/caldav"
 	"github.com/emersion/go-webdav/carddav"
 	"github.com/emersion/go-webdav/verifharness/doubles"
@@ -21,187 +17,6 @@ import (
 // alternately and concurrently. Every request is judged by the same
 // level -> operation and exposure oracles for the user who sent it, plus
 // "nothing of the other user shows".
-
-type userKey struct{}
-
-const userHeader = "X-Verif-User"
-
-// withUser is the tiny authentication middleware in front of the handler.
-func withUser(h http.Handler) http.Handler {
-	return http.HandlerFunc(func(w http.ResponseWriter, r *http.Request) {
-		h.ServeHTTP(w, r.WithContext(context.WithValue(r.Context(), userKey{}, r.Header.Get(userHeader))))
-	})
-}
-
-// asUser stamps every request of one client with its user.
-type asUser struct {
-	user string
-	next http.RoundTripper
-}
-
-func (u *asUser) RoundTrip(req *http.Request) (*http.Response, error) {
-	r2 := req.Clone(req.Context())
-	r2.Header.Set(userHeader, u.user)
-	return u.next.RoundTrip(r2)
-}
-
-func (u *asUser) Do(req *http.Request) (*http.Response, error) { return u.RoundTrip(req) }
-
-func noUser() error {
-	return webdav.NewHTTPError(http.StatusUnauthorized, fmt.Errorf("no such user"))
-}
-
-// multiCal dispatches every backend operation to the double of the user in
-// the context.
-type multiCal struct {
-	users map[string]*doubles.CalBackend
-}
-
-func (m *multiCal) pick(ctx context.Context) *doubles.CalBackend {
-	u, _ := ctx.Value(userKey{}).(string)
-	return m.users[u]
-}
-
-func (m *multiCal) CurrentUserPrincipal(ctx context.Context) (string, error) {
-	if b := m.pick(ctx); b != nil {
-		return b.CurrentUserPrincipal(ctx)
-	}
-	return "", noUser()
-}
-func (m *multiCal) CalendarHomeSetPath(ctx context.Context) (string, error) {
-	if b := m.pick(ctx); b != nil {
-		return b.CalendarHomeSetPath(ctx)
-	}
-	return "", noUser()
-}
-func (m *multiCal) CreateCalendar(ctx context.Context, cal *caldav.Calendar) error {
-	if b := m.pick(ctx); b != nil {
-		return b.CreateCalendar(ctx, cal)
-	}
-	return noUser()
-}
-func (m *multiCal) ListCalendars(ctx context.Context) ([]caldav.Calendar, error) {
-	if b := m.pick(ctx); b != nil {
-		return b.ListCalendars(ctx)
-	}
-	return nil, noUser()
-}
-func (m *multiCal) GetCalendar(ctx context.Context, path string) (*caldav.Calendar, error) {
-	if b := m.pick(ctx); b != nil {
-		return b.GetCalendar(ctx, path)
-	}
-	return nil, noUser()
-}
-func (m *multiCal) GetCalendarObject(ctx context.Context, path string, req *caldav.CalendarCompRequest) (*caldav.CalendarObject, error) {
-	if b := m.pick(ctx); b != nil {
-		return b.GetCalendarObject(ctx, path, req)
-	}
-	return nil, noUser()
-}
-func (m *multiCal) ListCalendarObjects(ctx context.Context, path string, req *caldav.CalendarCompRequest) ([]caldav.CalendarObject, error) {
-	if b := m.pick(ctx); b != nil {
-		return b.ListCalendarObjects(ctx, path, req)
-	}
-	return nil, noUser()
-}
-func (m *multiCal) QueryCalendarObjects(ctx context.Context, path string, q *caldav.CalendarQuery) ([]caldav.CalendarObject, error) {
-	if b := m.pick(ctx); b != nil {
-		return b.QueryCalendarObjects(ctx, path, q)
-	}
-	return nil, noUser()
-}
-func (m *multiCal) PutCalendarObject(ctx context.Context, path string, cal *ical.Calendar, opts *caldav.PutCalendarObjectOptions) (*caldav.CalendarObject, error) {
-	if b := m.pick(ctx); b != nil {
-		return b.PutCalendarObject(ctx, path, cal, opts)
-	}
-	return nil, noUser()
-}
-func (m *multiCal) DeleteCalendarObject(ctx context.Context, path string) error {
-	if b := m.pick(ctx); b != nil {
-		return b.DeleteCalendarObject(ctx, path)
-	}
-	return noUser()
-}
-
-var _ caldav.Backend = (*multiCal)(nil)
-
-type multiCard struct {
-	users map[string]*doubles.CardBackend
-}
-
-func (m *multiCard) pick(ctx context.Context) *doubles.CardBackend {
-	u, _ := ctx.Value(userKey{}).(string)
-	return m.users[u]
-}
-
-func (m *multiCard) CurrentUserPrincipal(ctx context.Context) (string, error) {
-	if b := m.pick(ctx); b != nil {
-		return b.CurrentUserPrincipal(ctx)
-	}
-	return "", noUser()
-}
-func (m *multiCard) AddressBookHomeSetPath(ctx context.Context) (string, error) {
-	if b := m.pick(ctx); b != nil {
-		return b.AddressBookHomeSetPath(ctx)
-	}
-	return "", noUser()
-}
-func (m *multiCard) ListAddressBooks(ctx context.Context) ([]carddav.AddressBook, error) {
-	if b := m.pick(ctx); b != nil {
-		return b.ListAddressBooks(ctx)
-	}
-	return nil, noUser()
-}
-func (m *multiCard) GetAddressBook(ctx context.Context, path string) (*carddav.AddressBook, error) {
-	if b := m.pick(ctx); b != nil {
-		return b.GetAddressBook(ctx, path)
-	}
-	return nil, noUser()
-}
-func (m *multiCard) CreateAddressBook(ctx context.Context, ab *carddav.AddressBook) error {
-	if b := m.pick(ctx); b != nil {
-		return b.CreateAddressBook(ctx, ab)
-	}
-	return noUser()
-}
-func (m *multiCard) DeleteAddressBook(ctx context.Context, path string) error {
-	if b := m.pick(ctx); b != nil {
-		return b.DeleteAddressBook(ctx, path)
-	}
-	return noUser()
-}
-func (m *multiCard) GetAddressObject(ctx context.Context, path string, req *carddav.AddressDataRequest) (*carddav.AddressObject, error) {
-	if b := m.pick(ctx); b != nil {
-		return b.GetAddressObject(ctx, path, req)
-	}
-	return nil, noUser()
-}
-func (m *multiCard) ListAddressObjects(ctx context.Context, path string, req *carddav.AddressDataRequest) ([]carddav.AddressObject, error) {
-	if b := m.pick(ctx); b != nil {
-		return b.ListAddressObjects(ctx, path, req)
-	}
-	return nil, noUser()
-}
-func (m *multiCard) QueryAddressObjects(ctx context.Context, path string, q *carddav.AddressBookQuery) ([]carddav.AddressObject, error) {
-	if b := m.pick(ctx); b != nil {
-		return b.QueryAddressObjects(ctx, path, q)
-	}
-	return nil, noUser()
-}
-func (m *multiCard) PutAddressObject(ctx context.Context, path string, card vcard.Card, opts *carddav.PutAddressObjectOptions) (*carddav.AddressObject, error) {
-	if b := m.pick(ctx); b != nil {
-		return b.PutAddressObject(ctx, path, card, opts)
-	}
-	return nil, noUser()
-}
-func (m *multiCard) DeleteAddressObject(ctx context.Context, path string) error {
-	if b := m.pick(ctx); b != nil {
-		return b.DeleteAddressObject(ctx, path)
-	}
-	return noUser()
-}
-
-var _ carddav.Backend = (*multiCard)(nil)
 
 // layoutB derives the second user's layout from the first one's: B is the
 // "other user" of A (so that A's foreign-principal requests address B's
@@ -270,18 +85,18 @@ func execMulti(c *fw.Ctx, cs *Case) {
 	rigs := [2]*rig{build(&csA, "A"), build(&csB, "B")}
 	var h http.Handler
 	if cs.Server == "caldav" {
-		h = &caldav.Handler{Prefix: cs.handlerPrefix(), Backend: &multiCal{users: map[string]*doubles.CalBackend{"A": rigs[0].cal, "B": rigs[1].cal}}}
+		h = &caldav.Handler{Prefix: cs.handlerPrefix(), Backend: &doubles.MultiCal{Users: map[string]*doubles.CalBackend{"A": rigs[0].cal, "B": rigs[1].cal}}}
 	} else {
-		h = &carddav.Handler{Prefix: cs.handlerPrefix(), Backend: &multiCard{users: map[string]*doubles.CardBackend{"A": rigs[0].card, "B": rigs[1].card}}}
+		h = &carddav.Handler{Prefix: cs.handlerPrefix(), Backend: &doubles.MultiCard{Users: map[string]*doubles.CardBackend{"A": rigs[0].card, "B": rigs[1].card}}}
 	}
-	h = withUser(h)
+	h = doubles.WithUser(h)
 	var ips [2]*doubles.InProc
-	var rts [2]*asUser
+	var rts [2]*doubles.AsUser
 	for u := 0; u < 2; u++ {
 		rigs[u].session = cs
 		rigs[u].h = h
 		ips[u] = &doubles.InProc{Handler: h, Record: true}
-		rts[u] = &asUser{user: rigs[u].user, next: ips[u]}
+		rts[u] = &doubles.AsUser{User: rigs[u].user, Next: ips[u]}
 	}
 	c.Journal(cs)
 	defer c.JournalDone()
@@ -358,7 +173,7 @@ func execMulti(c *fw.Ctx, cs *Case) {
 // runReqAs is runReq with the rig's user stamped on the request.
 func runReqAs(c *fw.Ctx, r *rig, ip *doubles.InProc, other *rig) {
 	stamped := &doubles.InProc{Handler: http.HandlerFunc(func(w http.ResponseWriter, req *http.Request) {
-		req.Header.Set(userHeader, r.user)
+		req.Header.Set(doubles.UserHeader, r.user)
 		ip.Handler.ServeHTTP(w, req)
 	}), Record: true}
 	runReq(c, r, stamped, other, false)
